@@ -366,3 +366,5 @@ PROPS["C11"]["mir"] += [ob("dump_order_c11", "ob_blob", "dump_order"), ob("delet
 PROPS["C13"]["mir"].append(ob("send_msg_delivers", "ob_worker", "send_msg_delivers"))
 PROPS["C09"]["mir"].append(ob("read_headers_file_order", "ob_tree", "read_headers_file_order"))
 PROPS["C02"]["mir"].append(ob("read_headers_file_order_c02", "ob_tree", "read_headers_file_order"))
+PROPS["C14"]["mir"].append(ob("index_load_cancel_safe", "ob_index", "index_load_cancel_safe"))
+PROPS["C04"]["mir"].append(ob("index_load_cancel_safe_c04", "ob_index", "index_load_cancel_safe"))
